@@ -129,6 +129,7 @@ class NamespaceFunction(Namespace[symtable.Function]):
                 outer_symbol = outer.symt.lookup(nonlocal_free)
                 if (
                     outer_symbol.is_assigned()
+                    or outer_symbol.is_imported()
                     or outer_symbol.is_parameter()
                     and not outer_symbol.is_global()
                 ):
@@ -240,6 +241,7 @@ class NamespaceClass(Namespace[symtable.Class]):
                 outer_symbol = outer.symt.lookup(nonlocal_free)
                 if (
                     outer_symbol.is_assigned()
+                    or outer_symbol.is_imported()
                     or outer_symbol.is_parameter()
                     and not outer_symbol.is_global()
                 ):
